@@ -667,7 +667,14 @@ func (fr *Frame) applyContract(i *ssa.Call, callee *ssa.Function, c *Contract, a
 	}
 	// ensures
 	all := append(append(append([]Val{}, params...), olds...), results...)
+	var useOnly map[string]bool
+	if rc := e.contractOf[x.root]; rc != nil && rc.Use != nil {
+		useOnly = rc.Use[callee.Name()]
+	}
 	for _, cl := range c.clauses("ensures") {
+		if useOnly != nil && cl.Label != "" && !useOnly[cl.Label] {
+			continue // the caller declared which labelled postconditions it relies on
+		}
 		t := fr.evalClause(callee, cl, all, st, g)
 		x.assume(g, t)
 	}
